@@ -13,6 +13,7 @@ package filtering
 import (
 	"crypto/sha256"
 	"encoding/hex"
+	"errors"
 	"math/rand"
 	"sort"
 	"strconv"
@@ -52,6 +53,8 @@ type zzC19TraceLine struct {
 	Q   []string       `json:"q"`
 	V   bool           `json:"v"`
 	OK  bool           `json:"ok"`
+	F   bool           `json:"f"`
+	E   bool           `json:"e"`
 	// not read by the trace spec
 	Why  string   `json:"why,omitempty"`
 	Host string   `json:"host,omitempty"`
@@ -89,6 +92,8 @@ type zzC19Svc struct {
 	tempt []zzC19Hash
 	n     int
 	reqs  []*dns.Msg
+	// fail makes Exchange return an error (the spec's LookupFails).
+	fail bool
 }
 
 func (s *zzC19Svc) Address() (addr string) { return "zzc19.mock" }
@@ -126,6 +131,10 @@ func zzC19ParseQuestion(name string) (prefs []string, ok bool) {
 
 func (s *zzC19Svc) Exchange(req *dns.Msg) (resp *dns.Msg, err error) {
 	s.reqs = append(s.reqs, req.Copy())
+	if s.fail {
+		return nil, errors.New("zzc19: lookup service: i/o timeout")
+	}
+
 	resp = (&dns.Msg{}).SetReply(req)
 	if len(req.Question) != 1 {
 		return resp, nil
@@ -402,15 +411,19 @@ func TestZZVerifC19Front(t *testing.T) {
 			labels := pool[rng.Intn(len(pool))]
 			lower := strings.Join(labels, ".")
 			host := zzC19MixCase(rng, lower)
+			svc.fail = rng.Intn(9) == 0
+			failing := svc.fail
 			res, cerr := d.CheckHost(host, dns.TypeA, setts)
+			svc.fail = false
 			prefs, qn, ok, why := svc.zzC19Observe(host, zzC19Chain(labels))
 			l := zzC19NewLine("check", w)
 			cut, opt := zzC19PSL(labels)
 			l.N = zzC19AbsName{L: labels, Cut: cut, Opt: opt, H: zzC19AbsAll(zzC19Chain(labels))}
 			l.Q, l.OK, l.Why, l.Host, l.QN, l.Via = prefs, ok, why, host, qn, via
 			l.V = res.IsFiltered && res.Reason == reason
+			l.F, l.E = failing, cerr != nil
 			if cerr != nil {
-				l.OK, l.Why = false, "error: "+cerr.Error()
+				l.Why += " error: " + cerr.Error()
 			} else if res.IsFiltered != l.V {
 				l.OK, l.Why = false, "filtered for another reason: "+res.Reason.String()
 			}
